@@ -155,6 +155,51 @@ def protocol_event(rec):
     rec.run('protocol.forwarded', ['chi._mechanistic_models.ReducedMechanisticModel.set_dosing_regimen', 'chi._predictive_models.PredictiveModel.set_dosing_regimen',
                                    'chi._predictive_models.PopulationPredictiveModel.set_dosing_regimen'], 'P∞', forwarded_backed)
 
+    # ---- averaged predictive models (xarray containers: bounded run-time contract, never counted as proved)
+    def averaged_case(case):
+        import chi as real
+        import xarray as xr
+        import pints
+        from contracts import c14
+        which, pat = case
+        Toy = c14.toy_model(real)
+        kw = dict(dose=2.0, start=1.5, duration=0.25)
+        if 'period' in pat:
+            kw['period'] = 3.0
+        if 'num' in pat:
+            kw['num'] = 4
+        want = (2.0 / 0.25, 1.5, 0.25, 3.0 if 'period' in pat else 0, 4 if ('period' in pat and 'num' in pat) else 0)
+
+        def pmodel():
+            return real.PredictiveModel(Toy(), [real.GaussianErrorModel(), real.GaussianErrorModel()])
+
+        def posterior(pm):
+            ds = xr.Dataset({nm: (('chain', 'draw'), 0.5 + 0.1 * np.arange(4).reshape(2, 2) + k_) for k_, nm in enumerate(pm.get_parameter_names())}, coords={'chain': [0, 1], 'draw': [0, 1]})
+            return real.PosteriorPredictiveModel(pm, ds)
+        if which == 'PosteriorPredictiveModel':
+            pms = [pmodel()]
+            top = posterior(pms[0])
+        elif which == 'PriorPredictiveModel':
+            pms = [pmodel()]
+            top = real.PriorPredictiveModel(pms[0], pints.ComposedLogPrior(*[pints.LogNormalLogPrior(0.0, 0.1) for _ in range(pms[0].n_parameters())]))
+        else:
+            pms = [pmodel(), pmodel(), pmodel()]          # distinct candidate models
+            top = real.PAMPredictiveModel([posterior(p_) for p_ in pms], weights=[1.0, 1.0, 2.0])
+        top.set_dosing_regimen(**kw)
+        for j, p_ in enumerate(pms):
+            reg = p_._mechanistic_model.dosing_regimen()
+            ev = None if reg is None else [(e.level(), e.start(), e.duration(), e.period(), e.multiplier()) for e in reg.events()]
+            if ev is None or len(ev) != 1 or not np.allclose(ev[0], want):
+                return '%s.set_dosing_regimen(%s): candidate model %d holds the events %s, the arguments specify %s' % (which, kw, j + 1, ev, want)
+        tab = top.get_dosing_regimen(final_time=20.0)
+        n_want = 1 if want[3] == 0 else (4 if want[4] else 7)
+        if tab is None or len(tab) != n_want:
+            return '%s: the regimen table up to t = 20 lists %s events, the regimen has %d' % (which, None if tab is None else len(tab), n_want)
+        return None
+    rec.native_check('protocol.forwarded[averaged models]', ['chi._predictive_models.AveragedPredictiveModel.set_dosing_regimen', 'chi._predictive_models.PAMPredictiveModel.set_dosing_regimen'],
+                     [(w_, pat) for w_ in ('PosteriorPredictiveModel', 'PriorPredictiveModel', 'PAMPredictiveModel') for pat in (('period', 'num'), ('period',), (), ('num',))], averaged_case,
+                     '3 averaged predictive models (PAM over three distinct candidates) x 4 argument patterns; dosable pure-Python mechanistic model; distinct by (model, pattern)', exhaustive=True)
+
     def lemma():
         ok = sp.simplify((dose / dur) * dur - dose) == 0
         return ('discharged', 'sympy', 'level * duration = (dose / duration) * duration = dose for every scheduled event; cumulative input = sum of scheduled doses under the assumed pacing semantics') if ok \
